@@ -1,5 +1,6 @@
 SPECIFICATION Spec
 CONSTANT MaxLen = 2
+CONSTANT CoreOnly = FALSE
 INVARIANT MInAllowed
 INVARIANT OffMeansUntouched
 INVARIANT NonEmpty
